@@ -70,6 +70,13 @@ CHECKS.update(
         note="Reference model in pvlib/ctxmodel.py (stack discipline, last enabled wins, shortest rule chain). hash_mode=mixed. Sequences longer than the bound outside.",
         design="4/C12",
     ),
+    C13=dict(
+        text="History independence as bounded model checking of the real registry: after every step of every sequence (all pairs, sampled/all triples) over 5 cache-populating queries and 10 state changes "
+        "(define, enable/disable contexts with redefinitions, default_system changes, touching a second registry) a battery of 24 read-only answers is proved equal, for all symbolic scales/factors/magnitudes, "
+        "to the answers of a registry freshly built from the same definitions in the same state; objects kept alive across the change are included.",
+        note="Generated 8-unit registry with contexts and two systems; hash_mode=mixed; sequences beyond the bound and the default registry's full table outside.",
+        design="4/C13",
+    ),
     C14=dict(
         text="get_base_units/to_base_units of the real registry under every declared system on a symbolic magnitude (value and dimensionality preserved for all magnitudes, only declared base units + unreplaced roots per an independent reader, "
         "idempotent, default_system switches take effect immediately and explicit-system queries do not leak); generated systems with both rule forms and symbolic scales; Group/System membership closure on all group graphs over 3 groups "
